@@ -124,8 +124,6 @@ def c19_distance(a: int, b: int, lim: int) -> Optional[str]:
 def run_within(wi, d, p, allow_known_off=False):
     word = WORDS[wi]
     res = {}
-    if len(word) < p:
-        return None      # query word shorter than the required prefix: known finding KF-C19-4 (IndexError), witnessed separately
     for nseg, (s, docs) in searchers().items():
         # Known finding KF-C19-3: a single segment answers through a plain Levenshtein automaton (an adjacent
         # transposition costs 2), a multi-segment reader through the documented Damerau-Levenshtein distance.
@@ -225,16 +223,6 @@ def _kf_transposition():
     return None if u"ba" in got else "single-segment terms_within('ab', 1) = %r lacks 'ba' (Damerau-Levenshtein distance 1)" % (got,)
 
 
-def _kf_short():
-    s1, _ = searchers()[1]
-    try:
-        list(s1.reader().terms_within("f", u"", 0, prefix=1))
-    except IndexError as e:
-        return "terms_within('', 0, prefix=1) raised IndexError: %s" % e
-    return None
-
-
 c19_kf_self = _kf("c19_kf_self", "KF-C19-1", _kf_self)
 c19_kf_rank = _kf("c19_kf_rank", "KF-C19-2", _kf_rank)
 c19_kf_transposition = _kf("c19_kf_transposition", "KF-C19-3", _kf_transposition)
-c19_kf_short = _kf("c19_kf_short", "KF-C19-4", _kf_short)
